@@ -88,6 +88,8 @@ static void run_mode(const char *mode)
 			if (!p || !guard--) break;
 			p = bintree_next(&it);
 		}
+		/* asking again after the end: still the end, the tree still as it was */
+		for (int again = 0; again < 2 && !p; again++) { p = bintree_next(&it); emit_step(idx(p)); }
 	}
 	teardown();
 }
@@ -153,16 +155,19 @@ static void enum_rec(struct frame *todo)
 static void spines(int maxk)
 {
 	for (int k = 0; k <= maxk; k++)
-		for (int side = 0; side < 4; side++) {
+		for (int side = 0; side < 5; side++) {
 			/* 0: left-leaning; 1: right-leaning closed by an element; 2: right-leaning closed by a childless list node
 			 * (cons style "nil"); 3: right-leaning closed by a NULL pointer */
+			/* 4: right-leaning, closed by an element that is itself a tree (a non-list node with two children) */
 			if (side == 3 && k == 0) continue;
-			n = side == 3 ? 2 * k : 2 * k + 1;
+			n = side == 3 ? 2 * k : side == 4 ? 2 * k + 3 : 2 * k + 1;
+			if (n > MAXN) continue;
 			for (int i = 1; i <= n; i++) { L[i] = R[i] = 0; ISL[i] = i <= k || (side == 2 && i == 2 * k + 1); }
 			for (int i = 1; i <= k; i++) {
 				if (side == 0) { L[i] = i < k ? i + 1 : 2 * k + 1; R[i] = k + i; }
 				else { L[i] = k + i; R[i] = i < k ? i + 1 : (side == 3 ? 0 : 2 * k + 1); }
 			}
+			if (side == 4) { L[2 * k + 1] = 2 * k + 2; R[2 * k + 1] = 2 * k + 3; }
 			run_mode("list");
 			for (int i = 1; i <= n; i++) ISL[i] = 0;
 		}
